@@ -45,6 +45,9 @@ func runC03(p *core.Prog, r *core.Report) {
 	c03R10(p, r)
 	// referrers are part of the image when asked for: what the client learned about the referrers API of one repository answers for that repository only (shared with C10.R8)
 	structKeyRule(p, r, "C03.R11")
+	// a copy with referrers or digest tags copies what the listings say: the referrer cache never holds a filtered answer (shared with C10.R2), and the tag listing reports a failing page instead of a short list (shared with C06.R4)
+	c10R2(p, r, "C03.R12")
+	c06R4(p, r, "C03.R13")
 }
 
 // c03R10: the copy skips what the target already has, and asks the target with a head request. A
